@@ -208,8 +208,71 @@ def h_step(env):
                 env.proof_device("invariant:other-slots-are-PLACEHOLDER", raw is betterproto.PLACEHOLDER)
 
 
+def h_time_members(env):
+    """a oneof whose members are a Timestamp and a Duration (datetime / timedelta on the Python side): which_one_of, wire and JSON name the
+    member set last and no sibling; concrete instants / spans (defaults included), the way of setting and the follow-up operation are choices"""
+    import copy
+    import datetime as _dt
+
+    import betterproto
+
+    from .c15 import positions_catalogue
+
+    cat = positions_catalogue()
+    mod = shapes.build_bp(cat)
+    utc = _dt.timezone.utc
+    stamps = [_dt.datetime(1970, 1, 1, tzinfo=utc), _dt.datetime(2001, 2, 3, 4, 5, 6, 789000, tzinfo=utc), _dt.datetime(1969, 12, 31, 23, 59, 59, 999999, tzinfo=utc)]
+    spans = [_dt.timedelta(0), _dt.timedelta(seconds=-1, microseconds=500), _dt.timedelta(days=1, microseconds=1)]
+    values = {"gt": stamps[env.choose("instant", len(stamps))], "gd": spans[env.choose("span", len(spans))]}
+    first = ["", "gt", "gd"][env.choose("first", 3)]
+    second = ["", "gt", "gd"][env.choose("second", 3)]
+    how = env.choose("how", 3)
+    if how == 0:
+        m = mod.P(**({first: values[first]} if first else {}))
+    elif how == 1:
+        m = mod.P()
+        if first:
+            setattr(m, first, values[first])
+    else:
+        m = mod.P().parse(bytes(mod.P(**({first: values[first]} if first else {}))))
+    if second:
+        setattr(m, second, values[second])
+    sel = second or first
+    then = env.choose("then", 5)
+    if then == 1:
+        m = copy.copy(m)
+    elif then == 2:
+        m = copy.deepcopy(m)
+    elif then == 3:
+        m = mod.P().from_dict(m.to_dict())
+    elif then == 4:
+        m = mod.P().parse(bytes(m))
+    name, got = betterproto.which_one_of(m, "g")
+    env.check("time-members:which_one_of-names-last-set", name == sel, "which_one_of=%r last set=%r" % (name, sel))
+    if sel:
+        env.check("time-members:selected-member-value", got == values[sel], "%r" % (got,))
+    numbers = [n for n, _, _, _ in sw.split_fields(bytes(m))]
+    for casing in (betterproto.Casing.CAMEL, betterproto.Casing.SNAKE):
+        d = m.to_dict(casing=casing)
+        for f, number in (("gt", 5), ("gd", 6)):
+            if f == sel:
+                env.check("time-members:selected-member-on-the-wire", numbers.count(number) == 1, "numbers=%r" % (numbers,))
+                env.check("time-members:selected-member-in-json", f in d, "keys=%r" % (sorted(d),))
+            else:
+                env.check("time-members:no-sibling-on-the-wire", numbers.count(number) == 0, "numbers=%r" % (numbers,))
+                env.check("time-members:no-sibling-in-json", f not in d, "keys=%r" % (sorted(d),))
+                try:
+                    getattr(m, f)
+                    env.check("time-members:other-member-raises-AttributeError", False, f)
+                except AttributeError:
+                    env.check("time-members:other-member-raises-AttributeError", True)
+        back = mod.P().from_dict(d)
+        env.check("time-members:json-round-trip-keeps-selection", betterproto.which_one_of(back, "g")[0] == sel and bytes(back) == bytes(m))
+
+
 def units(tier):
     u = []
+    u.append(("oneof of Timestamp / Duration members", h_time_members, {}))
     for op in OPS:
         u.append(("step[%s]" % op, h_step, {"op": op}))
     steps = 2 if tier == "quick" else 3
